@@ -12,5 +12,5 @@ if ! git -C $d apply $dir/patch.diff; then echo "PATCH DOES NOT APPLY"; git -C /
 echo "== demo on changed tree (expect exit 1)"
 ( cd $d && PYTHONHASHSEED=0 PYTHONPATH=$d timeout 300 /venv/bin/python $dir/demo.py 2>&1 | tail -3; echo "   demo changed rc=${PIPESTATUS[0]}" )
 echo "== our check on changed tree"
-SOLVOR_REPO=$d /verif/check $pid "$@" 2>&1 | grep -E "^(VIOLATION|PASS|FAIL|ERROR|KNOWN|INTERNAL)" | head -8
+VERIF_EVIDENCE_DIR=/var/tmp/seed-evidence VERIF_REPLAY_DIR=/var/tmp/seed-replays SOLVOR_REPO=$d /verif/check $pid "$@" 2>&1 | grep -E "^(VIOLATION|PASS|FAIL|ERROR|KNOWN|INTERNAL)" | head -8
 git -C /repo worktree remove --force $d
